@@ -193,9 +193,18 @@ class TwinSpace(object):
         return table.get(top, table[full])
 
     # -- twin construction
+    # import-order constraints the real package satisfies through its
+    # __init__ (sci_var must start before pncgen: they import each other)
+    PRELOAD = {'PseudoNetCDF.pncgen': 'PseudoNetCDF.sci_var'}
+
     def twin(self, modname):
         if modname in self.modules:
             return self.modules[modname]
+        pre = self.PRELOAD.get(modname)
+        if pre and pre not in self.modules:
+            self.twin(pre)
+            if modname in self.modules:
+                return self.modules[modname]
         path, ispkg = self._path(modname)
         if path is None:
             raise ImportError('no repo module ' + modname)
